@@ -12,7 +12,7 @@ from ..core import walk_local  # inline-aware
 from .common import handler_catching, handler_body_nodes, translation, where
 from .storelib import facts, node_desc, StoreFacts
 from .c09 import BARE, TREE, _commit_nodes, in_locked_index
-from .c01 import response_status
+from .c01 import response_status, return_status
 from .c14 import WEB_IMPORT_SITES, import_call_nodes
 
 GIT = "xandikos.store.git.GitStore"
@@ -116,7 +116,7 @@ def l0(ctx):
             for c in n.calls():
                 if isinstance(c.func, ast.Attribute) and c.func.attr in ("set_body", "create_member"):
                     h, raises, rets = translation(ctx, fi, n, "ResourceLocked")
-                    sts = [response_status(ctx, fi, r.ast.value) for r in rets if r.ast.value is not None]
+                    sts = [return_status(ctx, fi, r) for r in rets if r.ast.value is not None]
                     ok = h is not None and bool(sts) and all(s == 423 for s in sts)
                     obs.append(ctx.ob(ok, q, where(fi, n), "ResourceLocked -> 423 at %s" % c.func.attr, "answered 423 Locked",
                                       "ResourceLocked from `%s` is %s" % (c.func.attr, "not caught" if h is None else "answered %s" % sts)))
